@@ -315,7 +315,7 @@ def check(pid, tier, seed):
             r = results[p.name]
             samples.append({'partition': p.name, 'bound': p.bound, 'status': r['status'],
                             'paths': r.get('paths', 0), 'reached_assertion': r.get('reach', 0),
-                            'rejected_inputs': r.get('rejected', 0),
+                            'rejected_inputs': r.get('rejected', 0), 'max_ticks': r.get('max_ticks'),
                             'representative_input': p.rep, 'cpu_budget_s': p.timeout,
                             'elapsed_s': r.get('elapsed')})
         for kr in kernel_results:
